@@ -1,9 +1,9 @@
 (** C08 -- Discretised process matrices are the exact transition and noise integral.
 
     All statements are about the definitions GENERATED from pyins/kalman.py
-    `compute_process_matrices` (Gen/Kalman.v: cpm_H0 = Van Loan's block matrix
-    [[F, Q], [0, -F^T]], cpm_H1 = expm (dt *: cpm_H0), cpm_ret0 = Phi = upper-left block,
-    cpm_ret1 = Qd = (upper-right block) *m Phi^T), for arbitrary dimension n and matrices.
+    `compute_process_matrices` (Gen/Kalman.v: cpm_ret0 = Phi = upper-left block of
+    expm (dt *: [[F, Q], [0, -F^T]]), cpm_ret1 = Qd = (upper-right block) *m Phi^T -- the only generated
+    definitions; Van Loan's block matrix is [vl_mx F Q] of Spec/ExpSeries.v), for arbitrary dimension n and matrices.
     `expm` is an opaque oracle.  Its specification is the FORMAL power series
     sum_k A^k / k! over a field of characteristic 0 (Spec/ExpSeries.v): theorems either
     instantiate expm with the N-term series [exp_upto N] (every N), or assume the laws of
@@ -22,7 +22,7 @@ Local Open Scope ring_scope.
     F and of -F^T on the diagonal; the upper-right block obeys G(k+1) = F G(k) + Q (-F^T)^k *)
 Theorem C08_pow_block :
   forall (F : fieldType) (n : nat) (A Q : 'M[F]_n) (k : nat),
-  mx_pow (cpm_H0 A Q) k
+  mx_pow (vl_mx A Q) k
     = block_mx (mx_pow A k) (ur_pow A Q (- A^T) k) 0 (mx_pow (- A^T) k) /\
   ur_pow A Q (- A^T) 0 = 0 /\
   ur_pow A Q (- A^T) k.+1 = A *m ur_pow A Q (- A^T) k + Q *m mx_pow (- A^T) k.
